@@ -154,17 +154,17 @@ def items(tier, rng):
     for ci, (rows, c, U, ints) in enumerate(cells):
         for minimize in ((True, False) if ci % 2 == 0 else (rng.random() < 0.5,)):
             base = {"rows": rows, "c": c, "U": U, "integers": ints, "minimize": minimize}
-            out.append({"name": "milp_%d" % len(c), "harness": "h_milp", "params": dict(base), "max_paths": 400})
+            out.append({"name": "milp_%d" % len(c), "harness": "h_milp", "params": dict(base), "max_paths": 400, "spread": rng.randrange(1 << 30)})
             if ci % 3 == 0:
-                out.append({"name": "milp_noheur", "harness": "h_milp", "params": dict(base, heuristics=False), "max_paths": 400})
+                out.append({"name": "milp_noheur", "harness": "h_milp", "params": dict(base, heuristics=False), "max_paths": 400, "spread": rng.randrange(1 << 30)})
             if ci % 4 == 1:
-                out.append({"name": "milp_pool", "harness": "h_milp", "params": dict(base, solution_limit=2), "max_paths": 400})
+                out.append({"name": "milp_pool", "harness": "h_milp", "params": dict(base, solution_limit=2), "max_paths": 400, "spread": rng.randrange(1 << 30)})
             if ci % 3 == 1:
-                out.append({"name": "milp_warm_sym", "harness": "h_milp", "params": dict(base, warm="symbolic"), "max_paths": 250})
+                out.append({"name": "milp_warm_sym", "harness": "h_milp", "params": dict(base, warm="symbolic"), "max_paths": 250, "spread": rng.randrange(1 << 30)})
             if ci % 4 == 2:
                 w = [rng.randint(0, (U[k] if isinstance(U, list) else U)) for k in range(len(c))]
-                out.append({"name": "milp_warm", "harness": "h_milp", "params": dict(base, warm=w), "max_paths": 400})
-                out.append({"name": "milp_warm_badlen", "harness": "h_milp", "params": dict(base, warm=w + [0]), "max_paths": 400})
+                out.append({"name": "milp_warm", "harness": "h_milp", "params": dict(base, warm=w), "max_paths": 400, "spread": rng.randrange(1 << 30)})
+                out.append({"name": "milp_warm_badlen", "harness": "h_milp", "params": dict(base, warm=w + [0]), "max_paths": 400, "spread": rng.randrange(1 << 30)})
             if U == 1 and ci % 2 == 0:  # all-binary family
-                out.append({"name": "milp_lns", "harness": "h_milp", "params": dict(base, lns=1), "max_paths": 80})
+                out.append({"name": "milp_lns", "harness": "h_milp", "params": dict(base, lns=1), "max_paths": 80, "spread": rng.randrange(1 << 30)})
     return out
